@@ -564,6 +564,80 @@ theorem C14_core_cstr_region_exact (m p : Nat) (e : Edition) (o : EmitOpts)
   · simp only [Stab.allows, Construct.requires, Since.le, Bool.and_eq_false_iff, decide_eq_false_iff_not]
     left; omega
 
+/-! ## monotonicity at the level of emitted constructs -/
+
+/-- `cstrOn` is monotone in the flags -/
+theorem cstrOn_mono (gate : Bool) (fs fs' : Feature → Bool) (o : EmitOpts)
+    (hm : ∀ f, fs f = true → fs' f = true) (h : cstrOn gate fs o = true) : cstrOn gate fs' o = true := by
+  simp only [cstrOn, Bool.and_eq_true, Bool.or_eq_true, Bool.not_eq_true'] at h ⊢
+  obtain ⟨⟨hg, hc⟩, h3⟩ := h
+  refine ⟨⟨hg, hm _ hc⟩, ?_⟩
+  rcases h3 with (h3 | h3) | h3
+  · exact Or.inl (Or.inl h3)
+  · exact Or.inl (Or.inr h3)
+  · exact Or.inr (hm _ h3)
+
+/-- **Constructs are monotone.**  Whatever gated construct the generator emits for a target it
+also emits for every later target (same edition, same options) — with one exception by design:
+`CStr::from_bytes_with_nul_unchecked` constants, which a later target *replaces* by C-string
+literals (next theorem).  Holds with and without the `core_ffi_c` conjunct in the `cstr` gate. -/
+theorem C14_emits_monotone (gate : Bool) (tbl : Table) (t t' : Target) (e : Edition) (o : EmitOpts)
+    (c : Construct) (hle : Target.le t t' = true) (hc : c ≠ .constCStrUnchecked)
+    (h : emits gate (featuresNew tbl t e) o c = true) : emits gate (featuresNew tbl t' e) o c = true := by
+  have hm : ∀ f, featuresNew tbl t e f = true → featuresNew tbl t' e f = true :=
+    fun f => C14_monotone tbl t t' e f hle
+  cases c with
+  | constCStrUnchecked => exact absurd rfl hc
+  | unsafeExternBlock => exact hm _ h
+  | offsetOf => exact hm _ h
+  | cstrLiteral =>
+    simp only [emits, Bool.and_eq_true] at h ⊢
+    exact ⟨cstrOn_mono gate _ _ o hm h.1, hm _ h.2⟩
+  | coreFfiCType =>
+    simp only [emits, Bool.and_eq_true] at h ⊢
+    exact ⟨h.1, hm _ h.2⟩
+  | coreFfiCStr =>
+    simp only [emits, Bool.and_eq_true] at h ⊢
+    exact ⟨h.1, cstrOn_mono gate _ _ o hm h.2⟩
+  | abiThiscall =>
+    simp only [emits, Bool.and_eq_true] at h ⊢
+    exact ⟨h.1, hm _ h.2⟩
+  | abiVectorcall =>
+    simp only [emits, Bool.and_eq_true] at h ⊢
+    exact ⟨h.1, hm _ h.2⟩
+  | abiCUnwind =>
+    simp only [emits, Bool.and_eq_true] at h ⊢
+    exact ⟨h.1, hm _ h.2⟩
+  | abiEfiapi =>
+    simp only [emits, Bool.and_eq_true] at h ⊢
+    exact ⟨h.1, hm _ h.2⟩
+  | ptrMetadata =>
+    simp only [emits, Bool.and_eq_true, Bool.or_eq_true] at h ⊢
+    exact ⟨h.1, h.2.imp (hm _) (hm _)⟩
+  | layoutForPtr =>
+    simp only [emits, Bool.and_eq_true] at h ⊢
+    exact ⟨h.1, hm _ h.2⟩
+
+/-- the exception: a target that emitted `from_bytes_with_nul_unchecked` constants is followed by
+targets that emit either the same or C-string literals — `CStr` constants never disappear -/
+theorem C14_cstr_constants_persist (gate : Bool) (tbl : Table) (t t' : Target) (e : Edition) (o : EmitOpts)
+    (hle : Target.le t t' = true)
+    (h : emits gate (featuresNew tbl t e) o .constCStrUnchecked = true) :
+    emits gate (featuresNew tbl t' e) o .constCStrUnchecked = true ∨
+    emits gate (featuresNew tbl t' e) o .cstrLiteral = true := by
+  have hm : ∀ f, featuresNew tbl t e f = true → featuresNew tbl t' e f = true :=
+    fun f => C14_monotone tbl t t' e f hle
+  simp only [emits, Bool.and_eq_true, Bool.not_eq_true'] at h ⊢
+  have hon := cstrOn_mono gate _ _ o hm h.1
+  cases hl : featuresNew tbl t' e .literal_cstr with
+  | true => exact Or.inr ⟨hon, rfl⟩
+  | false => exact Or.inl ⟨hon, rfl⟩
+
+/-- non-vacuity: 1.59 emits the unchecked form, 1.77 (edition 2021) the literal form -/
+example : emits true (featuresNew theTable (.stable 59 0) .e2021) ⟨false, true, false, false⟩ .constCStrUnchecked = true ∧
+    emits true (featuresNew theTable (.stable 77 0) .e2021) ⟨false, true, false, false⟩ .constCStrUnchecked = false ∧
+    emits true (featuresNew theTable (.stable 77 0) .e2021) ⟨false, true, false, false⟩ .cstrLiteral = true := by decide
+
 /-! ## non-vacuity -/
 
 example : featuresNew theTable (.stable 77 3) .e2021 .literal_cstr = true ∧
